@@ -156,7 +156,15 @@ def rule_O6(ctx):
                     x[0] == "falsy" and "startswith('__')" in x[1].replace('"', "'") for x in alt)
                     for alt in a[1]))
                 for a in atoms)
-            if blocked:
+            odd = _not_keyed_read(f, v) if blocked else None
+            if blocked and odd is not None:
+                res.violated(inst, Finding(
+                    "O6", f.file, f.qualname, "value returned by ctx(key)",
+                    "ctx(key) tests the key it was given for the double-underscore prefix but "
+                    "returns a value reached another way (%s): a composite key such as "
+                    "'__state.status' passes the test and reads engine internals" % odd,
+                    line=r.lineno))
+            elif blocked:
                 res.holds(inst, "raises for double-underscore keys")
             else:
                 res.violated(inst, Finding(
@@ -164,6 +172,37 @@ def rule_O6(ctx):
                     "ctx(key) returns the value without rejecting double-underscore keys "
                     "(guards: %s)" % fmt_atoms(atoms), line=r.lineno))
     return res
+
+
+def _not_keyed_read(f, v, seen=None):
+    """None when the returned expression is the variables mapping subscripted by exactly the
+    key parameter (directly, or through locals every definition of which is); else a phrase
+    describing the other read."""
+    from sa.core import untag
+    seen = seen if seen is not None else set()
+    key = f.params[1] if len(f.params) > 1 else None
+    if isinstance(v, ast.Subscript):
+        if isinstance(v.slice, ast.Name) and v.slice.id == key:
+            return None
+        return "%s" % untag(unparse(v))
+    if isinstance(v, ast.Constant) and v.value is None:
+        return None
+    if isinstance(v, ast.Name):
+        if v.id in seen:
+            return None
+        seen.add(v.id)
+        ds = [d for d in ast.walk(f.node) if isinstance(d, ast.Assign) and any(
+            isinstance(t, ast.Name) and t.id == v.id for t in d.targets)]
+        if not ds:
+            return "%s" % untag(v.id)
+        for d in ds:
+            w = _not_keyed_read(f, d.value, seen)
+            if w is not None:
+                return w
+        return None
+    if isinstance(v, ast.Call) and callee_name(v) in ("deepcopy", "copy") and v.args:
+        return _not_keyed_read(f, v.args[0], seen)
+    return "%s" % untag(unparse(v))[:80]
 
 
 # ====================================================================== O7
